@@ -176,7 +176,7 @@ def wide_special_cases(tier):
 
 def tasks(tier, seed):
     global CASE_TIMEOUT
-    CASE_TIMEOUT = 2.5 if tier == "quick" else 15.0
+    CASE_TIMEOUT = 2.5 if tier == "quick" else 6.0
     n = 2400 if tier == "quick" else 48000
     shards = 48 if tier == "quick" else 192
     # slow, straggler-prone shards first
